@@ -242,7 +242,7 @@ def h_faults(m, ctx, nlines, menu_name, mode, fixed=None, faults=1, pre_uptodate
     if env.faults:
         ctx.cover('fault_injected')
         ctx.cover('fault:' + env.faults[0][0])
-    if ok_ and not spec.ok:
+    if ok_ and not spec.ok and mode != 'Clean':
         violation(ctx, 'false success: the run reports Ok although the source prescribes an error (%s)' % spec.error, data)
     if ok_ and mode in ('Build', 'InMemoryBuild', 'Verify'):
         out = env.read_file(OUT)
@@ -257,7 +257,7 @@ def h_faults(m, ctx, nlines, menu_name, mode, fixed=None, faults=1, pre_uptodate
     if env.faults and ok_ and mode != 'Clean':
         # a failed create / write / flush / read must surface as an error
         violation(ctx, 'an I/O failure (%s) did not fail the run' % (env.faults,), data)
-    if not env.faults and spec.ok and not ok_:
+    if not env.faults and spec.ok and not ok_ and mode != 'Verify':
         violation(ctx, 'the run failed without any fault on a valid source', data)
 
 
@@ -307,7 +307,8 @@ MODE_ARGS = {'Build': (), 'InMemoryBuild': ('-N',), 'Verify': ('verify',), 'Clea
 
 # ----------------------------------------------------------------------------- first pass reports dependencies (lemma for C02 / C06)
 
-DEP_SHAPES = [('d.txt', 'd.txt.txtpp'), ('d.txt', 'd.txtpp.txt'), ('e', 'e.txtpp'), ('sub/d.txt', 'sub/d.txt.txtpp')]
+DEP_SHAPES = [('d.txt', 'd.txt.txtpp'), ('d.txt', 'd.txtpp.txt'), ('e', 'e.txtpp'), ('sub/d.txt', 'sub/d.txt.txtpp'),
+              ('a.txt', 'a.txt.txtpp')]        # the last one is the source itself: a self-dependency is reported like any other
 
 
 def h_deps(m, ctx, mode, shape, kind='include', before='text', after='run', stale_output=True):
@@ -319,7 +320,7 @@ def h_deps(m, ctx, mode, shape, kind='include', before='text', after='run', stal
     if before == 'text':
         lines.append(tuple(b't') + (ctx.fresh_byte('b0', ASCII_LINE),))
     elif before == 'run':
-        lines.append(tuple(b'-TXTPP#run c1'))
+        lines.append(tuple(b'#TXTPP#run c1'))         # other prefix: the next line must not continue this directive
     lines.append(tuple(('-TXTPP#%s %s' % (kind, dep_out)).encode()))
     if after == 'run':
         lines.append(tuple(b'-TXTPP#run c2'))
@@ -335,9 +336,10 @@ def h_deps(m, ctx, mode, shape, kind='include', before='text', after='run', stal
     se = SymEnv(ctx, inc_len=0, out_len=1, fail_cmds=False)
     se.lenient = True
     dep_content = ctx.fresh_bytes('dep', 2, [111, 10])
-    extra = [(WORK + b'/' + dep_src.encode(), b'dep source\n')]
+    extra = [(WORK + b'/' + dep_src.encode(), b'dep source\n')] if dep_src != 'a.txt.txtpp' else []
     if after == 'include2':
         extra.append((WORK + b'/e.txtpp', b'e source\n'))
+        extra.append((WORK + b'/e', b'e out\n'))
     if stale_output:
         extra.append((WORK + b'/' + dep_out.encode(), dep_content))
     if '/' in dep_out:
@@ -394,6 +396,20 @@ def replay_deps(v):
     os.makedirs(os.path.join(work, 'sub'))
     dep_src = d['dep']
     dep_out = [o for o, s_ in DEP_SHAPES if s_ == dep_src][0]
+    if dep_src == 'a.txt.txtpp':
+        # self-dependency: the project  {loop includes itself; page includes part (slow)}: page must still be built
+        open(os.path.join(work, 'loop.txtpp'), 'w').write('-TXTPP#include loop\n')
+        open(os.path.join(work, 'part.txtpp'), 'w').write('-TXTPP#run sleep 1\npart\n')
+        open(os.path.join(work, 'page.txtpp'), 'w').write('head\n-TXTPP#include part\ntail\n')
+        cli = ppreplay.cli_path()
+        try:
+            r = subprocess.run([cli, '-q', '-j', '4', '.'], cwd=work, capture_output=True, timeout=30)
+            rc = r.returncode
+        except subprocess.TimeoutExpired:
+            rc = 'HANG'
+        page = open(os.path.join(work, 'page')).read() if os.path.exists(os.path.join(work, 'page')) else None
+        shutil.rmtree(root, ignore_errors=True)
+        return (rc == 0 or rc == 'HANG' or page != 'head\npart\ntail\n'), {'rc': rc, 'page': page}
     open(os.path.join(work, dep_src), 'w').write('fresh dep\n')
     open(os.path.join(work, 'a.txt.txtpp'), 'w').write('top\n-TXTPP#%s %s\nend\n' % (d['kind'], dep_out))
     cli = ppreplay.cli_path()
